@@ -16,8 +16,8 @@ META = {
                  "requests through the real ServeHTTP with the router's panic recovery made observable",
     "text": "Theorems C40_paging_no_panic (validatePaging followed by the list handlers' items[start:][:limit] for every query and "
             "collection), C40_parts_map_no_panic, C40_accept_first_no_panic, C40_bearer_token_no_panic, C40_cluster_token_no_panic, "
-            "C40_grant_flags_no_panic (validPermissions + the GrantPermissions loop for every list of strings) and "
-            "C40_name_parts_no_panic are proved for all inputs over models in which every Go index and slice can answer Panic; "
+            "C40_grant_flags_no_panic (validPermissions + the GrantPermissions loop for every list of strings), "
+            "C40_user_perms_no_panic (UpdateUserHandler's permission validation loop) and C40_name_parts_no_panic are proved for all inputs over models in which every Go index and slice can answer Panic; "
             "C40_grant_flags_old_refuted keeps the repaired defect (body [\"\"]), C40_page_slice_unvalidated_refuted documents that "
             "the slicing relies on the validation; the Range header parser is C39_no_panic (coq/Assets). The kernels are compared "
             "with the real functions every run and the guarded index expressions of the modelled functions are re-read from the "
@@ -33,13 +33,13 @@ META = {
 }
 THEOREMS = ["C40_paging_no_panic", "C40_page_slice_unvalidated_refuted", "C40_parts_map_no_panic", "C40_accept_first_no_panic",
             "C40_bearer_token_no_panic", "C40_cluster_token_no_panic", "C40_grant_flags_no_panic", "C40_grant_flags_old_refuted",
-            "C40_name_parts_no_panic"]
+            "C40_name_parts_no_panic", "C40_user_perms_no_panic", "C40_user_perms_early_trim_refuted"]
 SITE_ARGS = ["internal/router/serve.go:validatePaging,partsMap,requestWantsBrowserHTML,parmMap", "internal/router/auth.go:Authenticate",
              "internal/server/cluster/auth.go:ValidateClusterToken", "internal/server/admin/users/list.go:ListUsersHandler",
              "internal/server/admin/tokens.go:TokenListHandler", "internal/server/dsns/handler.go:ListDSNHandler",
              "internal/server/tables/security.go:validPermissions,GrantPermissions",
              "internal/server/tables/describe.go:getPostgresColumnMetadata,getSqliteColumnMetadata",
-             "internal/server/tables/parsing/parsing.go:TableNameParts"]
+             "internal/server/tables/parsing/parsing.go:TableNameParts", "internal/server/admin/users/update.go:UpdateUserHandler"]
 ANCHOR = "func reportRequestPanic(w http.ResponseWriter, r *http.Request, sessionID int, panicValue any) {\n"
 PERMS = ["ego.table.read", "ego.table.write", "ego.table.admin", "ego.table.update", "ego.table.delete"]
 MEDIA = ["application/json", "*/*", "text/html", "application/text", "application/vnd.ego.rows+json", "application/vnd.ego.sql+json",
@@ -86,9 +86,10 @@ def esc(v):
     return "".join(c if (c.isalnum() or c in "-._~%") and ord(c) < 128 else "".join("%%%02X" % b for b in c.encode("utf8")) for c in v)
 
 
-def gen_requests(rng, routes, n_per_route, tmp, n_rows=0, assets=True):
+def gen_requests(rng, routes, n_per_route, tmp, n_rows=0, assets=True, n_users=0):
     """routes: list of (endpoint, method). Returns list of request dicts; the first ones set up a DSN and a table."""
     J = {"Content-Type": ["application/json"], "Accept": ["application/json"]}
+    UJ = {"Content-Type": ["application/vnd.ego.user+json"], "Accept": ["application/vnd.ego.user+json"]}
     reqs = [
         dict(method="POST", target="/dsns/", headers={"Content-Type": ["application/vnd.ego.dsn+json"], "Accept": ["application/vnd.ego.dsn+json"]},
              body=hx(json.dumps({"name": "d1", "provider": "sqlite", "database": os.path.join(tmp, "d1.db"), "rowid": True})), cred="admin", setup=1),
@@ -115,6 +116,9 @@ def gen_requests(rng, routes, n_per_route, tmp, n_rows=0, assets=True):
              body=hx('{"columns":[{"name":"a","type":"int"}],"rows":[[1],[],[1,2,3]]}'), cred="admin"),
         dict(method="GET", target="/assets/style.css", headers={"Range": ["bytes=100-200"]}, body="", cred="none"),
         dict(method="HEAD", target="/assets/assets/a.txt", headers={"Range": ["bytes=21-22"]}, body="", cred="none"),
+        dict(method="PATCH", target="/admin/users/bob", headers=UJ, body=hx('{"name":"bob","permissions":[" "]}'), cred="admin"),
+        dict(method="PATCH", target="/admin/users/bob", headers=UJ, body=hx('{"name":"bob","permissions":["ego.logon","\\t"," +"," -x",""]}'), cred="bearer-admin"),
+        dict(method="PATCH", target="/admin/users/bob", headers=UJ, body=hx('{"name":"bob","permissions":["+","-","+ ","\\n"]}'), cred="admin"),
         dict(method="GET", target="/dsns/nodsn/begin", headers={}, body="", cred="admin"),
         dict(method="GET", target="/dsns/d1/begin?expires=zz", headers={}, body="", cred="admin"),
         dict(method="GET", target="/assets/x.txt", headers={"Range": ["bytes=5"]}, body="", cred="none"),
@@ -123,6 +127,21 @@ def gen_requests(rng, routes, n_per_route, tmp, n_rows=0, assets=True):
         dict(method="GET", target="/ui", headers={"Accept": [";,;;q"]}, body="", cred="none"),
     ]
     nfixed = len(reqs)
+    # ---- user routes: existing users, the body naming the same user, permission lists with blank / whitespace-only / sign-only entries
+    upool = ["", " ", "\t", "  ", "\n", "+", "-", "+ ", " -", "ego.logon", " ego.logon", "ego.logon ", "+ego.logon", "-ego.root", "ego.nosuch", "logon", "+x", "-x", "x y",
+             "ego.", "EGO.LOGON", "\u00a0", "+\t", "ego.server.admin", "ego.table.read,ego.table.write"]
+    for _ in range(n_users):
+        nm = rng.choice(["bob", "bob", "bob", "admin", "nosuch", "BOB", ""])
+        body = {"name": nm if rng.random() < 0.85 else rng.choice(["bob", "x", ""]), "permissions": [rng.choice(upool) for _ in range(rng.choice([0, 1, 1, 2, 3, 5]))]}
+        if rng.random() < 0.2:
+            body["password"] = rng.choice(["", "p", " ", "x" * 300])
+        if rng.random() < 0.1:
+            body["permissions"] = rng.choice([None, "ego.logon", 5, [None], [5], {}])
+        m = rng.choice(["PATCH"] * 7 + ["POST", "GET"])               # no DELETE: the users must stay for the rest of the sweep
+        tgt = "/admin/users/" + ("" if m == "POST" else esc(nm))
+        reqs.append(dict(method=m, target=tgt, headers={"Content-Type": [rng.choice(["application/vnd.ego.user+json"] * 3 + ["application/json"])],
+                                                        "Accept": [rng.choice(["application/vnd.ego.user+json"] * 3 + ["application/json", "*/*"])]},
+                         body=hx(json.dumps(body)), cred=rng.choice(["admin", "admin", "admin", "bearer-admin", "user"])))
     # ---- asset routes: real files x Range headers (both bounds explicit, start past EOF, reversed, huge, several ranges)
     for fn in (ASSET_FILES if assets else []):
         for rg in (RANGES if fn in ASSET_FILES[:5] else RANGES[11:17]):
@@ -198,6 +217,8 @@ def gen_requests(rng, routes, n_per_route, tmp, n_rows=0, assets=True):
             body = rng.choice(BODIES) if m not in ("GET", "HEAD") or rng.random() < 0.2 else b""
             if body and rng.random() < 0.15:
                 body = body[:rng.randint(0, len(body))]
+            if m == "DELETE" and "/admin/users/" in path and re.search(r"/admin/users/(bob|admin)\b", path, re.I):
+                path = re.sub(r"/admin/users/(bob|admin)", "/admin/users/ghost", path, flags=re.I)   # keep the two accounts alive
             reqs.append(dict(method=m, target=path, headers=hd, body=hx(body), cred=rng.choice(creds)))
     # the time budget may cut the tail off on a slow machine: spread the routes over the whole list
     head = reqs[:nfixed]
@@ -501,7 +522,7 @@ def run(ck):
     if replay and "request" in replay:
         reqs = gen_requests(rng, [], 0, tmp, assets=False)[:3] + [dict(replay["request"], id=3)]
     else:
-        reqs = gen_requests(rng, routes, 5 if quick else 100, tmp, n_rows=(150 if quick else 3000))
+        reqs = gen_requests(rng, routes, 5 if quick else 100, tmp, n_rows=(150 if quick else 3000), n_users=(70 if quick else 1500))
     results, deaths, tokens = run_routes(ck, built["routes"][1], reqs, budget_s=(50 if quick else 800))
     if tokens is None or tokens[0] == 0:
         ck.notes.append("admin logon through /services/admin/logon gave no token (bearer-admin requests run unauthenticated)")
@@ -526,7 +547,7 @@ def run(ck):
         ck.notes.append("process ended without a Go panic while serving %s %s (cred %s); resumed after it" % (
             reqs[i]["method"], reqs[i]["target"][:120], reqs[i]["cred"]))
     ck.cov["evaluations"] += len(results)
-    ck.cov["input_distribution"].update({"requests_planned": len(reqs), "asset_range_requests": 5 * len(RANGES) + 5 * 6, "row_payload_requests": 150 if quick else 3000, "requests_done": len(results), "status_histogram": status_hist,
+    ck.cov["input_distribution"].update({"requests_planned": len(reqs), "asset_range_requests": 5 * len(RANGES) + 5 * 6, "row_payload_requests": 150 if quick else 3000, "user_update_requests": 70 if quick else 1500, "requests_done": len(results), "status_histogram": status_hist,
                                          "setup_statuses (dsn, table, rows)": setup_ok, "tokens (admin,user) lengths": tokens,
                                          "process_deaths": len(deaths)})
     ck.cov["distinct_nontrivial"] = len(nontriv) + len(reached)
